@@ -121,6 +121,9 @@ fn main() {
             let suite = args.opts.get("suite").cloned().unwrap_or_else(|| "hist".into());
             let case = args.opts.get("case").cloned().expect("--case");
             std::env::set_var("SYMX_FIXED", "1");
+            if let Some(sc) = args.opts.get("scale") {
+                std::env::set_var("SYMX_FIXED_SCALE", sc);
+            }
             symcore::set_concrete(HashMap::new());
             let r = suites::replay_case(&suite, &case, &BTreeSet::new(), "", miniwasm);
             let notes: Vec<String> = r["notes"].as_array().map(|a| a.iter().filter_map(|x| x.as_str().map(|s| s.to_string())).filter(|n| n.starts_with('m') || n.starts_with("outcome")).collect()).unwrap_or_default();
